@@ -15,37 +15,37 @@ COMMON_NOTE = ("Trusted base (listed item by item in evidence/<id>.json: coverag
 
 SPECIFIC = {
  'C01': ("Proved for all inputs: decode returns Ok only with sig_ok() -- id is v4 and the stand-in verify predicate of the public key carried in the record holds over content_rlp(seq, pairs) of exactly the fields the record reports (getter contracts r == field); verify() == sig_ok(); rlp_content()/Builder::rlp_content() == content_rlp (signature excluded, pairs in sorted order, values verbatim); CombinedPublicKey::verify_v4 and every enr_to_public dispatch/lookup.",
-         "NOT decided: that the back-ends' verify_v4 really is keccak256 + 64-byte low-S ECDSA / Ed25519 (unverified back-end bodies), hence 'every tampering is rejected' is a cryptographic consequence outside any contract."),
+         "The back-ends' verify_v4/sign_v4 glue IS verified: k256 verify_v4 == (the 64 bytes parse as r||s, low-S, and the library's verify_digest accepts keccak256(msg)); ed25519 verify_v4 == (64-byte signature accepted by the library's verify over the raw message). The library primitives themselves (ECDSA/EdDSA verification, keccak256) are assumed contracts, hence 'every tampering is rejected' is a cryptographic consequence outside any contract."),
  'C02': ("Proved, both directions, no bound: for every buffer, decode is Ok iff the buffer starts with a complete RLP item and that item satisfies accepts::<K> = parse_record_struct (oracle written from the property text: list, <= 300 bytes, signature string, canonical seq < 2^64, strictly increasing string keys, a value after every key, typed id/ip/ip6/ports) AND id = v4 AND K's public-key entry is a valid key AND the signature verifies; every other input returns Err (no panic). Loop invariant relates the real pair loop to the accumulator-style oracle parse_pairs.",
          "Key validity and signature validity are the abstract predicates of K (back-ends unverified). The assumed contracts of alloy-rlp's Header::decode / typed decoders are what 'canonically framed' rests on."),
  'C03': ("Proved: every extracted function with a verified body (all of lib.rs, builder.rs, node_id.rs, error.rs, keys/mod.rs, keys/combined.rs, enr_to_public/decode_public/enr_key of the back-ends) is free of panics (expect/unwrap/index/slice/copy_from_slice preconditions), of arithmetic overflow and terminates, under valid() for &self/&mut self methods (valid() is the invariant proved under C05) and with no precondition for decode, from_str, NodeId::parse, builder calls and mutator arguments; remove_insert needs the caller's iterators to obey the iterator laws.",
-         "NOT covered: Debug/Display formatting, serde (de)serialisers, EnrIntoIter/iter(), Hash, the unverified back-end bodies (k256 encode_uncompressed contains unwraps), NodeId::random, allocation failure."),
+         "Also covered: Display for Enr, Hash for Enr, Display/Debug for NodeId, and the k256/ed25519 back-end bodies except k256 encode_uncompressed. NOT covered: Debug for Enr, serde (de)serialisers, EnrIntoIter/iter(), k256 encode_uncompressed (contains unwraps on library results), NodeId::random, CombinedKey::generate_*, allocation failure."),
  'C04': ("Proved: decode Ok(e) ==> record_rlp(e) == the consumed item (canonical uniqueness lemma, spec/52) and e's fields == independent oracle parse; encode appends exactly record_rlp (trait-level ensures), size() is its length; valid(e) ==> the oracle accepts record_rlp(e) and reports e's fields (round-trip theorem, spec/51); builder and every update establish valid(); to_base64/from_str are inverse up to the assumed base64 engine.",
          "NOT covered: the JSON leg (serde impls are not extracted); base64 canonical strictness is the engine's assumed contract."),
  'C05': ("Proved by induction over all histories (representation invariant): valid() = all values exactly one well-typed RLP item, id v4, signature verifies under the carried key, node id = keccak(uncompressed key), record_rlp <= 300 bytes -- established by Builder::build, Enr::empty, decode, clone and preserved by all 22 public mutators incl. remove_insert; re-keying clauses (pk() == signer's key) for every mutator; with the round-trip theorem valid() implies the decoder accepts the record again. Holds for every K meeting the key-trait contract, including variable-length signature schemes.",
-         "Precondition 'spec_compatible' formalises 'another key of the same signature scheme' (for CombinedKey: an ed25519 key cannot re-key content that holds a valid secp256k1 entry). Trait laws L1/L2/L4 are assumed for the k256/ed25519 back-ends, PROVED for CombinedKey."),
+         "Precondition 'spec_compatible' formalises 'another key of the same signature scheme' (for CombinedKey: an ed25519 key cannot re-key content that holds a valid secp256k1 entry). Trait laws L1/L2/L4 are PROVED for CombinedKey from its components and for the k256/ed25519 back-ends from the assumed contracts of the library primitives (sign-then-verify, key round trip)."),
  'C06': ("Proved: r is Err ==> same_as(old) (seq, node id, pairs, signature) on all 22 mutators, for every error cause; sign_v4 may return Err at any call (signing faults are part of the trait contract), checked_add may overflow.",
          "same_as compares the abstract content map, not the BTreeMap's internal shape."),
  'C07': ("Proved: Ok ==> seq' == seq + 1 as mathematical integers (no wrap) for all mutators, however many fields they touch; seq == 2^64-1 ==> Err; set_seq sets exactly the requested value; builder keeps its seq; decode reports be_val of the canonical integer (round trip for all 64-bit values by the round-trip theorem).",
          "alloy-rlp's u64 codec is an assumed contract."),
  'C08': ("Proved: whole-map effect (final.cm() == explicit Map expression over old.cm() and the arguments) for all mutators and every builder method, returned previous values, set_public_key with the signer's own key is never refused by the value check, and for every error kind an admissible cause (err_cause_update / per-function match).",
-         "For remove_insert the returned vectors are specified by length only."),
+         "For remove_insert both returned vectors are specified element by element (the previous value of each key at the moment it was touched)."),
  'C09': ("Proved: size() == |record_rlp|; valid() bounds every handed-out record by 300 bytes; with 64-byte signatures each mutator refuses for size iff rec_size(64, seq+1, new pairs) > 300 (length lemmas handle the 127/128, 255/256 sequence-number growth symbolically); builder: > 300 ==> Err and Err(ExceedsMaxSize) ==> size + 8 > 300; decoder gate on the item.",
          "rec_size is the encoding length with a 64-byte signature; schemes with other signature lengths get the upper bound and size() only."),
  'C10': ("Proved: NodeId::from(pk).raw == keccak(pk.spec_encode_uncompressed()); valid() includes node_id_ok; every mutator/builder/decode establishes it for the signer's / carried key; hence unchanged under same-key updates and a function of the key alone.",
-         "keccak256 is an uninterpreted total function (sha3 stand-in); the back-ends' encode_uncompressed (64-byte x||y, 32-byte key for ed25519) is unverified."),
+         "keccak256 is an uninterpreted total function (sha3 stand-in); ed25519 encode_uncompressed is verified (the 32 key bytes), k256 encode_uncompressed (64-byte x||y via SEC1 decompression) is an assumed contract."),
  'C11': ("REDUCED CLAIM. Proved: CombinedKey::enr_to_public precedence (secp256k1 entry wins whenever it is a valid key, else ed25519), variant-wise dispatch of sign_v4/public/verify_v4/encode/encode_uncompressed/enr_key, L1/L2/L4 for CombinedKey from its components; each single-scheme enr_to_public reads exactly its own key name, RLP-decodes the entry as a byte string and fails when absent; decode::<K> depends on K only through spec_enr_to_public/spec_verify_v4 (parametricity is visible in dec_ok's definition).",
          "NOT decided: that k256 and libsecp256k1 implement the same parsing/verification predicates (rust_secp256k1.rs is FFI, not extracted)."),
  'C12': ("Proved: to_base64 == 'enr:' + URL_SAFE_NO_PAD text of record_rlp; from_str Ok(e) ==> the string is the text (with or without prefix) of some x that is EXACTLY one acceptable record and e reports x's fields; both spellings of an acceptable record's text are accepted. Engine constants have distinct ghost identities.",
-         "Padding/alphabet/trailing-bit strictness is the assumed contract of the base64 engine (accepts exactly canonical texts); Display and the JSON string are not extracted."),
+         "Display for Enr writes exactly that text (verified). Padding/alphabet/trailing-bit strictness is the assumed contract of the base64 engine (accepts exactly canonical texts); the JSON string (serde) is not extracted."),
  'C13': ("Proved: decode's outcome and record are functions of the first item only (dec_ok/dec_post mention only item_raw(buf, hdr)); on Ok the buffer is advanced by exactly item_total.",
          "Lists/streams of records follow from this contract plus alloy-rlp's assumed Vec<T> decoder."),
  'C14': ("Proved: each typed getter (ip4, ip6, tcp4, tcp6, udp4, udp6, id, get_raw_rlp, get_decodable, get) is a stated function of the raw stored value; setters/builder methods store rlp_uint(port)/rlp_str(octets) which read back (lemma_port_stored, lemma_ip*_stored); sockets/reachability are exactly the combination of the same family's ip and port accessors.",
          "client_info is verified for panic-freedom only (Vec<Bytes> decoding is an abstract contract); u16 codec of alloy-rlp assumed."),
  'C15': ("Proved: == is exactly equality of (seq, node id, signature) -- an equivalence relation by construction; clone is observationally identical; compare_content == (content_rlp(a) == content_rlp(b)); content_rlp is injective on valid content (lemma_content_rlp_injective); re-encode/decode image equal via C04.",
-         "NOT covered: Hash (the Hasher trait could not be given a ghost trace with this Verus); 'equal records carry identical pairs' needs signature unforgeability."),
+         "Hash for Enr feeds the hasher exactly (seq, node id, signature), the triple == compares, so equal records hash equally for every Hasher (ghost trace hasher_fed/hash_tok; that Vec<u8>, u64 and NodeId feed a function of their value is assumed). 'equal records carry identical pairs' needs signature unforgeability."),
  'C16': ("Proved (Verus, unbounded): parse Ok <==> len == 32 and Ok(id).raw == input; new/raw/From/AsRef/PartialEq identities. Kani function contract on the real NodeId::parse (slices <= 64 bytes, bounded) and a full-domain identity harness over all 32-byte values.",
-         "NOT covered: Display/Debug hex forms and the serde hex (de)serialiser (fmt/serde/hex plumbing)."),
+         "Debug writes 0x + 64 lower-case hex digits and Display 0x + first two bytes + '..' + last two bytes (verified against the hex crate's assumed contract hex_chars). NOT covered: the serde hex (de)serialiser."),
  'C17': ("REDUCED CLAIM (glue only). Proved: secp256k1_from_bytes / ed25519_from_bytes succeed exactly when the library accepts the bytes, zero the buffer on success, leave it untouched on failure, store the same secret in the right variant; encode returns the variant's secret; public/sign dispatch.",
          "ASSUMED (stand-ins): which scalars the libraries accept ([1, n-1] / 32 bytes), public-key derivation, to_bytes(from_slice(b)) == b, signatures verify (L1)."),
 }
